@@ -10,7 +10,7 @@ from ptyproc import key, mouse_sgr
 import pbt
 
 PID = "C18"
-RXS = [(52.0, 4.0), (-33.9, 151.2), (70.0, -20.0), (40.0, -100.0), (1.0, 103.0), (10.0, 179.7)]
+RXS = [(52.0, 4.0), (-33.9, 151.2), (70.0, -20.0), (40.0, -100.0), (1.0, 103.0), (10.0, 179.7), (51.5, 0.3), (-0.2, -0.3), (-45.0, -179.8)]
 ADDRS = [0x4840D6, 0xABC001, 0x3C6586, 0x000A0B, 0xFFFFFE, 0x7C0017, 0x06A0B1, 0x800001]
 ROWS, COLS = 50, 160
 WIDTHS = [6, 9, 7, 7, 7, 8, 6, 5, 8, 6]
@@ -315,6 +315,28 @@ def run_case(case):
                     fails.append(("C18/view/pan", f"a horizontal pan moved the markers by different vectors {sorted(shifts)}"))
             # data unchanged
             rows_after = check_table("after_view")
+            # ... and data that arrives while the view is moved is still the tracker's data
+            if case.get("post_view"):
+                more = []
+                for (i, fs, pos) in feed:
+                    ac = case["aircraft"][i]
+                    if ac.get("position", True):
+                        lat2, lon2 = F.destination(pos[0], pos[1], 90.0, 1.5)
+                        alt = 1000 + 25 * ac.get("alt", 100)
+                        more += [F.position(ADDRS[i % len(ADDRS)], lat2, lon2, 0, alt_ft=alt), F.position(ADDRS[i % len(ADDRS)], lat2, lon2, 1, alt_ft=alt)]
+                if more:
+                    for f in more:
+                        s.send(F.line(f))
+                    all_frames += [f.hex() for f in more]
+                    if not s.wait_log_contains(more[-1].hex(), 8.0):
+                        raise Inconclusive("frames not processed within 8 s")
+                    exp2 = F.helper({"cmd": "trackdump", "frames": all_frames, "rx": list(rx), "range": 500.0})
+                    recs.clear()
+                    recs.update(exp2["dump"]["records"])
+                    exp["total_added"], exp["most"] = exp2["total_added"], exp2["most"]
+                    time.sleep(0.15)
+                    rows_before = check_table("after_view_new_data")
+                    rows_after = rows_before
             if rows_before is not None and rows_after is not None and [[c.strip() for c in r] for r in rows_after] != [[c.strip() for c in r] for r in rows_before]:
                 fails.append(("C18/view/table_changed", "the Airplanes tab differs after view controls"))
             stats_after = check_stats("after_view")
@@ -325,7 +347,7 @@ def run_case(case):
             time.sleep(0.2)
             s.press("Enter")
             ok = s.wait_for(lambda: sorted(map_info(s.fresh_screen())["blue"]) == base_blue, 3.0)
-            if not ok and not labels:
+            if not ok and not labels and not case.get("post_view"):
                 fails.append(("C18/view/reset", f"Enter does not restore the original map: markers {sorted(map_info(s.fresh_screen())['blue'])[:8]} vs {base_blue[:8]}"))
         if not s.alive():
             fails.append(("C18/terminated", f"radar terminated: {s.stderr()[-300:]}"))
@@ -373,6 +395,7 @@ def worker(args):
         "labels": st.booleans(),
         "scale": st.sampled_from([None, None, 0.12, 0.2, 0.06]),
         "view": st.lists(view, max_size=3),
+        "post_view": st.booleans(),
     })
 
     @seed(args.seed * 1000 + 18 * 7 + args.worker)
@@ -432,7 +455,7 @@ def main():
         worker(a)
         return
     tier = a.tier
-    per = 4 if tier == "quick" else 70
+    per = 9 if tier == "quick" else 90
     rc = pbt.run_parallel(
         PID, os.path.abspath(__file__), tier, 12, per, "exploration",
         "Hypothesis-generated scenarios: 1-8 aircraft placed by bearing/distance around one of five receiver sites (all quadrants, the axes, the receiver position itself), with or without callsign / position / velocity / extra frames, frames built by a reference CPR encoder and fed over TCP to the radar binary on a 50x160 pty; the terminal output is parsed by a VT emulator. Oracle: Airplanes tab rows == tracker records computed by the real library from the same frames (address, callsign, lat/lon/distance to 3 decimals, altitude, message count; blank until a position exists; titles count the tracked aircraft); Stats totals == number of newly-added events / largest simultaneous count; Map: axes cross at the canvas centre, each marker on the correct side of the centre, offsets proportional (scale calibrated from the farthest marker, +-1.6 cells); view controls (zoom keys, scroll, pan keys, drag) leave both tables unchanged, zoom scales offsets by 1.1^n, a horizontal pan moves all markers by one vector, Enter restores the map cell for cell. non-trivial = aircraft in >= 2 quadrants and >= 1 view control; distinct by hash of the case",
